@@ -235,6 +235,9 @@ Inductive cmd :=
 | CRnfr (p : bytes)
 | CRnto (p : bytes)
 | CStor (p : bytes) (data : bytes)      (* with its own fresh data connection *)
+| CStorAbort (p : bytes) (part : bytes)  (* STOR whose data connection is reset by the client after
+                                           [part] (possibly nothing) has been delivered *)
+| CListNoData (p : bytes)               (* LIST/NLST whose data connection is missing or reset *)
 | CAppe
 | CRest (z : Z)
 | CRetr (p : bytes)                     (* with its own fresh data connection *)
@@ -324,6 +327,14 @@ Definition step (s : sess) (c : cmd) : option (sess * resp) :=
       | Some fs => Some (mkS fs (s_h s) (s_rnfr s) false (s_pos s), mkR [150; 226] PNone [k])
       | None => Some (mkS (s_fs s) (s_h s) (s_rnfr s) false (s_pos s), mkR [150; 450] PNone [k])
       end) s
+  | CStorAbort p part => need_param p (fun _ =>
+      (* io.Copy fails after [part]: what was received stays in the file, the reply is 450 *)
+      let k := rp_of s p in
+      match put_file (s_fs s) k part (s_append s) with
+      | Some fs => Some (mkS fs (s_h s) (s_rnfr s) false (s_pos s), mkR [150; 450] PNone [k])
+      | None => Some (mkS (s_fs s) (s_h s) (s_rnfr s) false (s_pos s), mkR [150; 450] PNone [k])
+      end) s
+  | CListNoData p => Some (s, mkR [150; 226] PNone [rp_of s p])
   | CAppe => Some (mkS (s_fs s) (s_h s) (s_rnfr s) true (s_pos s), mkR [202] PNone [])
   | CRest z => Some (mkS (s_fs s) (s_h s) (s_rnfr s) true z, mkR [350] PNone [])
   | CRetr p => need_param p (fun _ =>
